@@ -159,7 +159,7 @@ def finishTxn (prec : String → Option Nat) (date : Date) (st : TxnState String
 
 def addTransactionSyntax (c : Ctx) (bal : Balance String String) (t : Transaction) :
     Outcome BkErrS (Ctx × TxnResult String String) :=
-  match loopSyntax t.date c ⟨[], none, [], bal, []⟩ 0 t.posts with
+  match loopSyntax t.date c ⟨[], none, [], bal, [], []⟩ 0 t.posts with
   | .ok (c', st) =>
     match finishTxn c'.prec t.date st with
     | .ok r => .ok (c', r)
